@@ -58,6 +58,14 @@ VH_DRIVER(fault){
     static const unsigned masks[]={63,1,2,4,8,16,32,12,0xFFFFFFFFu}; for(int mi=0;mi<9;++mi){ unsigned m=masks[mi];
       if((i+mi)%2){ sweep<ApiA>(3,u,{},m,runs); sweep<ApiW>(4,u,{},m,runs); } else { sweep<ApiW>(3,u,{},m,runs); sweep<ApiA>(4,u,{},m,runs); } }
     if(i%2) sweep<ApiW>(5,u,{},0,runs); else sweep<ApiA>(5,u,{},0,runs); }
+  // reference creation: every branch that appends a segment of its own ("." for the same / an empty path, ".." per base level, "./" and "/."
+  // guards) with each of its requests failing
+  { const char* pairs[][2]={{"s://h","s://h/a/b"},{"s://h/","s://h/a/b"},{"s://h/a/b","s://h/a/b?q"},{"s://h/a/b","s://h/a/b"},{"s://h","s://h?q"},{"s://h/a//b","s://h/a/c"},{"s://h/a/b:c","s://h/a/x"},{"s://h/x","s://h/a/b/c/d"},
+      {"s://h/a/","s://h/a/b/c"},{"s:/a/b","s:/c/d/e"},{"s:a/b","s:c"},{"s://h//x","s://h/y"},{"s://h/a/b/","s://h/a/b/"},{"s://g/a","s://h/a"},{"s://u@h:1/a","s://h/a"},{"s://[::1]/a/b","s://[::1]/a/c/d"},{"s://1.2.3.4/","s://1.2.3.4/x/y"}};
+    long q=0; for(auto&pr:pairs) for(unsigned md=0;md<2;++md){ if((++q)%2) sweep<ApiA>(2,T(pr[0]),T(pr[1]),md,runs); else sweep<ApiW>(2,T(pr[0]),T(pr[1]),md,runs); } }
+  // resolution: dot removal that allocates (a trailing ".." needs a fresh empty segment), the ambiguity fix-up of the merged path
+  { const char* pairs[][2]={{"x/y/..","s://g/a/b"},{"../..","s://g/a/b/c/"},{"/a/b/..","s://g"},{".//x","s:/y"},{"..//x","s:/a/b"},{"a/../..//b","s:/x/y"},{"x/..","s:a"},{"..","s://g/a/b/c"},{"./","s://g/a/b"},{"?q","s://g/a/b/../c"},{"//h2/a/../b/..","s://g"},{"s:a/..//b","t://g/"}};
+    long q=0; for(auto&pr:pairs) for(unsigned opt=0;opt<2;++opt){ if((++q)%2) sweep<ApiA>(1,T(pr[0]),T(pr[1]),opt,runs); else sweep<ApiW>(1,T(pr[0]),T(pr[1]),opt,runs); } }
   for(const char*q:{"a=b&c=d&e","a","=","a=&=b&&c=%41+%0D%0A","k1=v1&k2=v2&k3=v3&k4"}){ sweep<ApiA>(6,T(q),{},0,runs); sweep<ApiW>(6,T(q),{},0,runs); }
   sweep<ApiA>(7,T("key one"),T("v\r\n"),0,runs); sweep<ApiW>(7,T("k"),T(""),0,runs);
   // long plain text: the worst-case buffer has thousands of unused characters (whatever an implementation does with the slack - shrink,
